@@ -1,5 +1,6 @@
 """C10 Mask recovery never changes the verdict (non-interference, structural).
 
+R-C10-1  (the draws of the batch weight are sites too: whether the weight RNG is advanced must not depend on the seed)
 R-C10-1  the statement's recovery seed does not reach the verdict: no explicit flow into the gate MSM's arguments, into any
          transcript / weight-transcript absorption, or into a rejecting condition; no branch on seed-dependent data controls them.
          Tabled: the error edges of the nonce derivation / mask constructor inside the recovery block (cannot fire)
@@ -109,6 +110,10 @@ def _run(ctx):
     ws, _ = weights.weight_atoms(ctx, v, [args[1], args[2]])
     L = cfg.loop_of.get(ws[0][3][0][1], [None])[0] if len(ws) == 1 else None
     sites = [(gbb, 'gate')]
+    # the draws of the batch weight: whether (and how often) the weight RNG is advanced must not depend on the seed either
+    for w_ in ws:
+        if w_[3] and w_[3][0][0] == v.key:
+            sites.append((w_[3][0][1], 'weight draw'))
     if L is not None:
         for e in weights.accumulation_events(ctx, v, [args[1], args[2]], L):
             sites.append((e[4][0][1], 'accumulation %s' % e[2].split('::')[-1]))
